@@ -53,6 +53,16 @@ def isLike : Ty → Ty → Bool
   | .array a n, o => (match o with | .arraylike b => isLike a b | _ => o == .array a n)
   | .arrayNamed a x, o => (match o with | .arraylike b => isLike a b | _ => o == .arrayNamed a x)
   | .endless a, o => (match o with | .arraylike b => isLike a b | _ => o == .endless a)
+  | .struct i, o =>
+    (match o with
+     | .unresolved none => true
+     | .unresolved (some j) => i == j
+     | _ => o == .struct i)
+  | .word i s, o =>
+    (match o with
+     | .unresolved none => true
+     | .unresolved (some j) => i == j
+     | _ => o == .word i s)
   | s, o => s == o
 
 /-- `can_be_declared_as` -/
